@@ -14,31 +14,28 @@ use tvmon::rng::Rng;
 /// and .managed.json lists exactly the managed (non-dot) files that exist.
 fn quiescent_check(index: &Index, mon: &MonDir, what: &str) -> Vec<(String, Value)> {
     let mut errs = vec![];
-    let metas = match index.searchable_segment_metas() {
-        Ok(m) => m,
+    let n_segments = match index.searchable_segment_metas() {
+        Ok(m) => m.len(),
         Err(e) => return vec![("api-error:searchable_segment_metas".into(), json!(e.to_string()))],
     };
     let present: BTreeSet<String> = mon.list_files().into_iter().collect();
+    // the files of the committed segments, derived from meta.json by the harness itself (the six
+    // components of every segment and its delete file): tantivy's own SegmentMeta::list_files()
+    // is part of what is being checked, not an oracle
+    let refs = match mon.raw_bytes("meta.json").map(|b| tvmon::mondir::meta_referenced_files(&b)) {
+        Some(Ok(r)) => r,
+        Some(Err(e)) => return vec![("quiescent:meta.json-unparsable".into(), json!(e))],
+        None => return vec![("quiescent:no-meta.json".into(), json!({"at": what}))],
+    };
     let mut expected: BTreeSet<String> = BTreeSet::new();
-    for m in &metas {
-        for f in m.list_files() {
-            let f = f.to_string_lossy().to_string();
-            if present.contains(&f) {
-                expected.insert(f);
-            } else if file_kind(&f) != "del" && file_kind(&f) != "tempstore" {
-                // every component except optional ones must exist
-                errs.push((
-                    format!("quiescent:needed-file-missing:{}", file_kind(&f)),
-                    json!({"file": f, "at": what}),
-                ));
-            }
-        }
-        if m.has_deletes() {
-            let del = m.relative_path(tantivy::index::SegmentComponent::Delete);
-            let del = del.to_string_lossy().to_string();
-            if !present.contains(&del) {
-                errs.push(("quiescent:needed-file-missing:del".into(), json!({"file": del, "at": what})));
-            }
+    for (f, _) in &refs {
+        if present.contains(f) {
+            expected.insert(f.clone());
+        } else {
+            errs.push((
+                format!("quiescent:needed-file-missing:{}", file_kind(f)),
+                json!({"file": f, "at": what}),
+            ));
         }
     }
     expected.insert("meta.json".into());
@@ -51,7 +48,7 @@ fn quiescent_check(index: &Index, mon: &MonDir, what: &str) -> Vec<(String, Valu
             orphans.iter().all(|f| f.split_once('.').map(|(id, _)| by_merge.contains(id)).unwrap_or(false));
         errs.push((
             format!("quiescent:orphan-files:{}", kinds.into_iter().collect::<Vec<_>>().join("+")),
-            json!({"orphans": orphans.iter().take(12).collect::<Vec<_>>(), "at": what, "n_segments": metas.len(),
+            json!({"orphans": orphans.iter().take(12).collect::<Vec<_>>(), "at": what, "n_segments": n_segments,
                    "all_merge_created": all_merge_created}),
         ));
     }
@@ -114,6 +111,24 @@ fn quiescent_check_settled(ex: &Exec, mon: &MonDir, what: &str, rep: &mut Report
 }
 
 /// brings the executor to quiescence: merges awaited (writer consumed), new writer, GC.
+/// quiescence WITHOUT replacing the writer (only sound while no merge policy can start merges
+/// behind our back): explicit merges awaited, no merge thread active, GC on the same writer.
+/// A replaced writer re-reads its segment metas from meta.json and so hides whatever the live
+/// one wrongly keeps alive.
+fn quiesce_same_writer(ex: &mut Exec, mon: &MonDir) -> Result<(), String> {
+    ex.drain_merges();
+    if !mon.wait_no_merge_in_flight(std::time::Duration::from_secs(20)) {
+        return Err("orphan-merge-still-running".into());
+    }
+    ex.writer
+        .as_ref()
+        .ok_or("no writer")?
+        .garbage_collect_files()
+        .wait()
+        .map_err(|e| format!("gc: {e}"))?;
+    Ok(())
+}
+
 fn quiesce(ex: &mut Exec, mon: &MonDir) -> Result<(), String> {
     ex.drain_merges();
     if let Some(w) = ex.writer.take() {
@@ -184,12 +199,20 @@ fn history_case(case: u64, rng: &mut Rng, rep: &mut Report) {
             .filter(|e| e.kind == OpKind::Delete && e.ok)
             .count()
     };
+    let mut policy_on = cfg.merge_policy;
     for (i, op) in ops.iter().enumerate() {
         ex.step(op);
+        if let Op::SetPolicy(on) = op {
+            policy_on = *on;
+        }
         rep.count(&format!("op:{}", op.kind()), 1);
         let at_commit = matches!(op, Op::Commit | Op::PrepCommit { abort: false, .. });
         if (at_commit && rng.chance(1, 2)) || i + 1 == ops.len() {
-            match quiesce(&mut ex, &mon) {
+            let same_writer = at_commit && !policy_on && ex.writer.is_some() && rng.bool();
+            if same_writer {
+                rep.count("quiescent_points_on_the_same_writer", 1);
+            }
+            match if same_writer { quiesce_same_writer(&mut ex, &mon) } else { quiesce(&mut ex, &mon) } {
                 Err(e) if e == "orphan-merge-still-running" => {
                     rep.count("quiescent_point_skipped:orphan-merge-still-running", 1);
                 }
